@@ -9,3 +9,8 @@ open GoSQLXModel
 #print axioms Props.C13.structured_error_reachable
 #print axioms Props.C13.cause_reachable
 #print axioms Props.C13.bare_error_counterexample
+#print axioms Depth.runCall_restores
+#print axioms Props.C13.gen_depth_sites_deferred
+#print axioms Props.C13.depth_restored_after_any_parse
+#print axioms Props.C13.depth_restored_after_any_history
+#print axioms Props.C13.inline_decrement_leaks
